@@ -24,6 +24,11 @@ fn glue(w: i32, st: i32, so: GlueOrder, sh: i32) -> ds::Horizontal {
 }
 fn pen(p: i32) -> ds::Horizontal { ds::Horizontal::Penalty(ds::Penalty(p)) }
 fn kern(w: i32) -> ds::Horizontal { ds::Horizontal::Kern(ds::Kern { width: Scaled(w * U), kind: ds::KernKind::Explicit }) }
+/// \\discretionary{pre}{post}{} with boxes of the given widths (0 = empty list); `replace` following nodes vanish at a break
+fn disc(pre: i32, post: i32, replace: u32) -> ds::Horizontal {
+    let b = |w: i32| -> Vec<ds::DiscretionaryElem> { if w == 0 { vec![] } else { vec![ds::DiscretionaryElem::HBox(ds::HBox { width: Scaled(w * U), ..Default::default() })] } };
+    ds::Horizontal::Discretionary(ds::Discretionary { pre_break: b(pre), post_break: b(post), replace_count: replace })
+}
 fn font_kern(w: i32) -> ds::Horizontal { ds::Horizontal::Kern(ds::Kern { width: Scaled(w * U), kind: ds::KernKind::Normal }) }
 
 // ---------------------------------------------------------------- the independent model
@@ -38,13 +43,16 @@ fn discardable(e: &ds::Horizontal) -> bool {
     match e { ds::Horizontal::Glue(_) | ds::Horizontal::Penalty(_) => true, ds::Horizontal::Kern(k) => k.kind == ds::KernKind::Explicit, _ => false }
 }
 /// legal breakpoints (TeXbook p. 96) of a list without math and discretionaries; the end of the list is always one
-fn legal(list: &[ds::Horizontal]) -> Vec<(usize, i32)> {
+fn legal(list: &[ds::Horizontal]) -> Vec<(usize, i32)> { legal_with(list, &Params::plain_tex_defaults()) }
+fn legal_with(list: &[ds::Horizontal], p: &Params) -> Vec<(usize, i32)> {
     let mut out = vec![];
     for (i, e) in list.iter().enumerate() {
         match e {
             ds::Horizontal::Glue(_) => if i > 0 && list[i - 1].precedes_break() { out.push((i, 0)) },
             ds::Horizontal::Kern(k) => if k.kind == ds::KernKind::Explicit && matches!(list.get(i + 1), Some(ds::Horizontal::Glue(_))) { out.push((i, 0)) },
             ds::Horizontal::Penalty(p) => if p.0 < 10000 { out.push((i, p.0.max(-10000))) },
+            // TeX.2021.869: a discretionary break costs \\hyphenpenalty, or \\exhyphenpenalty when its pre-break list is empty
+            ds::Horizontal::Discretionary(d) => { let pen = if d.pre_break.is_empty() { p.ex_hyphen_penalty } else { p.hyphen_penalty }; if pen < 10000 { out.push((i, pen.max(-10000))) } }
             _ => {}
         }
     }
@@ -53,10 +61,22 @@ fn legal(list: &[ds::Horizontal]) -> Vec<(usize, i32)> {
 }
 /// (badness or None when overfull, fitness class 0..3) of the line from the break at `a` (None: start) to the break at `b`
 fn line(list: &[ds::Horizontal], a: Option<usize>, b: usize, width: i64) -> (Option<i64>, i32) {
-    // TeX.2021.837: the break node and the discardable nodes after it vanish
-    let mut start = match a { None => 0, Some(a) => a };
-    if a.is_some() { while start < b && discardable(&list[start]) { start += 1; } }
     let (mut nat, mut st, mut inf, mut sh) = (0i64, 0i64, false, 0i64);
+    let dwidth = |v: &Vec<ds::DiscretionaryElem>| -> i64 { v.iter().map(|e| match e { ds::DiscretionaryElem::HBox(h) => h.width.0 as i64, _ => 0 }).sum() };
+    let mut start = match a { None => 0, Some(a) => a };
+    match a.map(|a| &list[a]) {
+        // TeX.2021.840-842: after a discretionary break the post-break list opens the line, the replaced nodes are gone;
+        // with an EMPTY post-break list the discardable nodes that follow vanish as after any other break
+        Some(ds::Horizontal::Discretionary(d)) => {
+            start = a.unwrap() + 1 + d.replace_count as usize;
+            nat += dwidth(&d.post_break);
+            if d.post_break.is_empty() { while start < b && discardable(&list[start]) { start += 1; } }
+        }
+        // TeX.2021.837: the break node and the discardable nodes after it vanish
+        Some(_) => { while start < b && discardable(&list[start]) { start += 1; } }
+        None => {}
+    }
+    if start > b { start = b; }
     for e in &list[start..b] {
         match e {
             ds::Horizontal::HBox(h) => nat += h.width.0 as i64,
@@ -69,6 +89,8 @@ fn line(list: &[ds::Horizontal], a: Option<usize>, b: usize, width: i64) -> (Opt
             _ => {}
         }
     }
+    // TeX.2021.869: a line that ends at a discretionary ends with its pre-break list
+    if let Some(ds::Horizontal::Discretionary(d)) = list.get(b) { nat += dwidth(&d.pre_break); }
     let shortfall = width - nat;
     if shortfall > 0 {
         if inf { return (Some(0), 2); }
@@ -80,13 +102,15 @@ fn line(list: &[ds::Horizontal], a: Option<usize>, b: usize, width: i64) -> (Opt
         (Some(b), if b <= 12 { 2 } else { 3 })
     }
 }
-/// TeX.2021.859 without hyphens
-fn tex_demerits(p: &Params, b: i64, pen: i32, prev_fit: i32, fit: i32) -> i64 {
+/// TeX.2021.859
+fn tex_demerits(p: &Params, b: i64, pen: i32, prev_fit: i32, fit: i32, prev_hyph: bool, this_hyph: bool, is_final: bool) -> i64 {
     let mut d = p.line_penalty as i64 + b;
     if d.abs() >= 10000 { d = 10000 }
     d = d * d;
     let pen = pen as i64;
     if pen > 0 { d += pen * pen } else if pen > -10000 { d -= pen * pen }
+    // two hyphenated lines in a row / a hyphenated line just before the last one
+    if prev_hyph && is_final { d += p.final_hyphen_demerits as i64 } else if prev_hyph && this_hyph { d += p.double_hyphen_demerits as i64 }
     if (prev_fit - fit).abs() > 1 { d += p.adj_demerits as i64 }
     d
 }
@@ -95,13 +119,16 @@ fn total(list: &[ds::Horizontal], breaks: &[(usize, i32)], widths: &[i64], tol: 
     // TeX.2021.828: "if threshold>inf_bad then threshold:=inf_bad" - an overfull line (badness inf_bad+1) is never feasible
     let tol = tol.min(10000);
     let (mut prev, mut fit, mut sum) = (None, 2, 0i64);
+    let mut prev_hyph = false;
     for (k, (b, pen)) in breaks.iter().enumerate() {
         let w = *widths.get(k).unwrap_or(widths.last().unwrap());
         let (bad, f) = line(list, prev, *b, w);
         let bad = bad?;
         if bad > tol { return None; }
-        sum += tex_demerits(p, bad, *pen, fit, f);
+        let this_hyph = matches!(list.get(*b), Some(ds::Horizontal::Discretionary(_)));
+        sum += tex_demerits(p, bad, *pen, fit, f, prev_hyph, this_hyph, *b == list.len());
         prev = Some(*b);
+        prev_hyph = this_hyph;
         fit = f;
     }
     Some(sum)
@@ -125,7 +152,7 @@ fn monotone(list: &[ds::Horizontal], lg: &[(usize, i32)], widths: &[i64]) -> boo
 fn check(list: &[ds::Horizontal], widths: &[i32], tol: i32, params: &Params, stats: &mut [u64; 4]) -> bool {
     let lw: Vec<Scaled> = widths.iter().map(|w| Scaled(w * U)).collect();
     let lw64: Vec<i64> = lw.iter().map(|w| w.0 as i64).collect();
-    let lg = legal(list);
+    let lg = legal_with(list, params);
     if !monotone(list, &lg, &lw64) { stats[3] += 1; return true; }
     let hy = NoHyph;
     let mut lb = LineBreaker { params, line_widths: &lw, line_indents: &[], debug_logger: None, hyphenator: &hy };
@@ -148,6 +175,7 @@ fn check(list: &[ds::Horizontal], widths: &[i32], tol: i32, params: &Params, sta
     let describe = || format!("{:?}", list.iter().map(|e| match e {
         ds::Horizontal::HBox(h) => format!("box{}", h.width.0 / U), ds::Horizontal::Kern(k) => format!("{}{}", if k.kind == ds::KernKind::Explicit { "kern" } else { "fontkern" }, k.width.0 / U),
         ds::Horizontal::Penalty(p) => format!("pen{}", p.0),
+        ds::Horizontal::Discretionary(d) => format!("disc({},{},{})", d.pre_break.len(), d.post_break.len(), d.replace_count),
         ds::Horizontal::Glue(g) => format!("glue{}+{}{}-{}", g.value.width.0 / U, g.value.stretch.0 / U, ["", "fil", "fill", "filll"][g.value.stretch_order as usize], g.value.shrink.0 / U),
         _ => "?".to_string() }).collect::<Vec<_>>()).replace('"', "");
     let fail = |observed: String, expected: String| {
@@ -199,6 +227,12 @@ fn optimal_breaks() {
         // every order of infinite stretch makes a short line perfect (TeX.2021.852)
         vec![glue(1, 1, GlueOrder::Fill, 0)],
         vec![glue(1, 1, GlueOrder::Filll, 0)],
+        // discretionaries: a hyphen (pre-break box 1), an explicit hyphen followed by a space (empty lists, then glue),
+        // one with a post-break box, one that replaces the following box
+        vec![disc(1, 0, 0)],
+        vec![disc(0, 0, 0), glue(1, 1, GlueOrder::Normal, 1)],
+        vec![disc(1, 1, 0)],
+        vec![disc(1, 1, 1), hbox(1)],
     ];
     let boxes = [2, 3, 5];
     let mut stats = [0u64; 4];
@@ -209,7 +243,7 @@ fn optimal_breaks() {
         let ns = seps.len().pow(n as u32 - 1);
         for bi in 0..nb { for si in 0..ns {
             // thin the larger spaces (quick: 4 boxes 1 in 5; thorough: 5 boxes 1 in 37)
-            if !thorough && n == 4 && (bi * 7 + si) % 5 != 0 { continue; }
+            if !thorough && n == 4 && (bi * 7 + si) % 11 != 0 { continue; }
             if n == 5 && (bi * 7 + si) % 37 != 0 { continue; }
             let mut list = vec![];
             let (mut b, mut s) = (bi, si);
